@@ -1555,6 +1555,10 @@ func (p *Printer) assigns(assigns []*Assign) {
 			// because that can result in indentation, thus
 			// splitting "foo=bar" into "foo= bar".
 			p.advanceLine(a.Value.Pos().Line())
+			if a.Name != nil {
+				// The value must directly follow "name[index]=".
+				p.wantSpace = spaceNotRequired
+			}
 			p.word(a.Value)
 		} else if a.Array != nil {
 			p.wantSpace = spaceNotRequired
